@@ -6,6 +6,7 @@ package main
 // answers (session ids, playlist and segment names, session URLs) are echoed.
 
 import (
+	"encoding/base64"
 	"fmt"
 	"regexp"
 	"strings"
@@ -17,6 +18,8 @@ import (
 	"github.com/bluenviron/gortsplib/v5/pkg/base"
 	"github.com/bluenviron/gortsplib/v5/pkg/description"
 	"github.com/bluenviron/gortsplib/v5/pkg/format"
+	"github.com/bluenviron/gortsplib/v5/pkg/mikey"
+	"github.com/bluenviron/gortsplib/v5/pkg/ntp"
 	"github.com/bluenviron/mediacommon/v2/pkg/codecs/mpeg4audio"
 )
 
@@ -26,8 +29,39 @@ const sessionPlaceholder = "SESSIONIDECHOED"
 
 var rtspSessionEcho = Echo{Placeholder: sessionPlaceholder, Re: regexp.MustCompile(`(?mi)^Session: *([^;\r\n]+)`), Default: "00000000"}
 
-// a MIKEY message (key management of SRTP over RTSPS) as clients send it in the KeyMgmt header of SETUP
-const mikeyMsg = "AQAFAP1td9ABAAA2Ckq3AAAAAAsA6B9KEHa3pL8KEAECAwQFBgcICQoLDA0ODwEAAAAsAAEBAQEQAgEEBAEGBQEACwEKBgEABwEBCAEBCQEADAEAAAAAHhABAgMEBQYHCAkKCwwNDg8QERITFBUWFxgZGhscHR4="
+// the MIKEY message (key management of SRTP over RTSPS) that a client sends in the KeyMgmt header of SETUP carries
+// the current time (the server refuses one that is more than an hour off): it is produced when the request is sent
+const mikeyPlaceholder = "MIKEYMESSAGEWITHCURRENTTIME"
+
+var mikeyEcho = Echo{Placeholder: mikeyPlaceholder, Gen: func() string {
+	key := make([]byte, 30)
+	for i := range key {
+		key[i] = byte(i + 1)
+	}
+	msg := &mikey.Message{
+		Header: mikey.Header{Version: 1, CSBID: 0x35353535, CSIDMapInfo: []mikey.SRTPIDEntry{{SSRC: 0x12345678}}},
+		Payloads: []mikey.Payload{
+			&mikey.PayloadT{TSValue: ntp.Encode(time.Now())},
+			&mikey.PayloadRAND{Data: []byte("0123456789abcdef")},
+			&mikey.PayloadSP{PolicyParams: []mikey.PayloadSPPolicyParam{
+				{Type: mikey.PayloadSPPolicyParamTypeEncrAlg, Value: []byte{1}},
+				{Type: mikey.PayloadSPPolicyParamTypeSessionEncrKeyLen, Value: []byte{16}},
+				{Type: mikey.PayloadSPPolicyParamTypeAuthAlg, Value: []byte{1}},
+				{Type: mikey.PayloadSPPolicyParamTypeSessionAuthKeyLen, Value: []byte{20}},
+				{Type: mikey.PayloadSPPolicyParamTypeSRTPEncrOffOn, Value: []byte{1}},
+				{Type: mikey.PayloadSPPolicyParamTypeSRTCPEncrOffOn, Value: []byte{1}},
+				{Type: mikey.PayloadSPPolicyParamTypeSRTPAuthOffOn, Value: []byte{1}},
+				{Type: mikey.PayloadSPPolicyParamTypeAuthTagLen, Value: []byte{10}},
+			}},
+			&mikey.PayloadKEMAC{SubPayloads: []*mikey.SubPayloadKeyData{{Type: mikey.SubPayloadKeyDataTypeTEK, KV: mikey.SubPayloadKeyDataKVNull, KeyData: key}}},
+		},
+	}
+	b, err := msg.Marshal()
+	if err != nil {
+		panic(err)
+	}
+	return base64.StdEncoding.EncodeToString(b)
+}}
 
 func openAnnounceSDP() []byte {
 	desc := &description.Session{Medias: []*description.Media{
@@ -79,7 +113,7 @@ func rtspOpenSeeds(secure bool) []*Seed {
 		}
 		h["Transport"] = base.HeaderValue{v}
 		if t.profile == "SAVP" {
-			h["KeyMgmt"] = base.HeaderValue{`prot=mikey;uri="` + live + `";data="` + mikeyMsg + `"`}
+			h["KeyMgmt"] = base.HeaderValue{`prot=mikey;uri="` + live + `";data="` + mikeyPlaceholder + `"`}
 		}
 		return h
 	}
@@ -92,7 +126,7 @@ func rtspOpenSeeds(secure bool) []*Seed {
 	read := func(name string, light bool, tracks []int, trs []tr) *Seed {
 		n = 0
 		s := &Seed{Listener: listener, Name: name, Transport: transport, Port: port, Open: true, Light: light, Dup: true, Streams: true,
-			Echo: []Echo{rtspSessionEcho}}
+			Echo: []Echo{rtspSessionEcho, mikeyEcho}}
 		s.Msgs = append(s.Msgs,
 			req("OPTIONS", base.Options, live, nil, nil),
 			req("DESCRIBE", base.Describe, live, base.Header{"Accept": base.HeaderValue{"application/sdp"}}, nil))
@@ -120,7 +154,7 @@ func rtspOpenSeeds(secure bool) []*Seed {
 	var out []*Seed
 	if !secure {
 		out = append(out,
-			read("open-read-two-tracks-tcp", false, []int{0, 1}, []tr{tcp, tcp}),
+			read("open-read-two-tracks-tcp", true, []int{0, 1}, []tr{tcp, tcp}),
 			read("open-read-two-tracks-udp", true, []int{0, 1}, []tr{udp, udp}),
 			read("open-read-same-setup-twice-tcp", true, []int{0, 0}, []tr{tcp, tcp}),
 			read("open-read-same-setup-twice-udp", true, []int{1, 1}, []tr{udp, udp}),
@@ -201,7 +235,7 @@ func rtmpOpenSeeds(listener string, port int, transport string) []*Seed {
 	// the handshake and the three control messages (6 messages) are covered by the closed world's "play" seed
 	out := []*Seed{
 		// an Enhanced RTMP reader (fourCcList in connect), as current players are
-		rtmpOpenSeed(listener, port, transport, "open-play-enhanced", false, 6, []message.Message{
+		rtmpOpenSeed(listener, port, transport, "open-play-enhanced", true, 6, []message.Message{
 			connect(openReadPath, tcRead, amf0.StrictArray{"av01", "vp09", "hvc1", "Opus"}),
 			createStream(2),
 			&message.UserControlSetBufferLength{BufferLength: 0x64},
@@ -226,7 +260,7 @@ func rtmpOpenSeeds(listener string, port int, transport string) []*Seed {
 		NumOfPictureParameterSets: 1, PictureParameterSets: []mp4.AVCParameterSet{{Length: uint16(len(livePPS)), NALUnit: livePPS}}}
 	idr := []byte{0x65, 0x88, 0x84, 0x00, 0x10, 0xff}
 	au := append([]byte{0, 0, 0, byte(len(idr))}, idr...)
-	pubSeed := rtmpOpenSeed(listener, port, transport, "open-publish", false, 6, []message.Message{
+	pubSeed := rtmpOpenSeed(listener, port, transport, "open-publish", true, 6, []message.Message{
 		connect(strings.TrimSuffix(openPubPrefix, "/"), "rtmp://127.0.0.1:1935/"+strings.TrimSuffix(openPubPrefix, "/"), amf0.StrictArray{"hvc1", "av01"}),
 		&message.CommandAMF0{ChunkStreamID: 3, Name: "releaseStream", CommandID: 2, Arguments: []any{nil, cookiePlaceholder}},
 		&message.CommandAMF0{ChunkStreamID: 3, Name: "FCPublish", CommandID: 3, Arguments: []any{nil, cookiePlaceholder}},
@@ -267,7 +301,7 @@ func hlsOpenSeeds() []*Seed {
 		{Placeholder: "HLSINITECHOED", Re: re(`#EXT-X-MAP:URI="([^"?]+)`), Default: "0_video1_init.mp4"},
 		{Placeholder: "HLSSEGMENTECHOED", Re: re(`(?m)^([0-9a-zA-Z_]+_seg\d+\.mp4)`), Default: "0_video1_seg1.mp4"},
 		{Placeholder: "HLSPARTECHOED", Re: re(`#EXT-X-PART:[^\r\n]*URI="([^"?]+)`), Default: "0_video1_part1.mp4"},
-		{Placeholder: "HLSMSNECHOED", Re: re(`#EXT-X-MEDIA-SEQUENCE:(\d+)`), Default: "0"},
+		{Placeholder: "HLSMSNECHOED", Re: re(`(?m)^[0-9a-zA-Z_]+_seg(\d+)\.mp4`), Default: "0"}, // the newest complete segment
 	}
 	ck := "Cookie: cookieCheck=1; hlsSession=HLSSESSIONECHOED"
 	cookie := &Seed{Listener: "hls", Name: "open-play-session-cookie", Transport: tTCP, Port: pHLS, Open: true, Light: true, Dup: true, Echo: echoes, Msgs: []Msg{
@@ -278,7 +312,7 @@ func hlsOpenSeeds() []*Seed {
 		get("init", p+"HLSINITECHOED", ck),
 		get("segment", p+"HLSSEGMENTECHOED", ck, "Range: bytes=0-99"),
 		get("part", p+"HLSPARTECHOED", ck),
-		get("video-playlist-blocking", p+"video1_stream.m3u8?_HLS_msn=HLSMSNECHOED&_HLS_part=0&_HLS_skip=YES", ck),
+		get("video-playlist-blocking", p+"video1_stream.m3u8?_HLS_msn=HLSMSNECHOED&_HLS_part=0", ck),
 	}}
 	q := "?session=HLSSESSIONECHOED"
 	query := &Seed{Listener: "hls", Name: "open-play-session-query", Transport: tTCP, Port: pHLS, Open: true, Light: true, Dup: true, Echo: echoes, Msgs: []Msg{
